@@ -7,6 +7,18 @@ COMMON_TRUST = [
 ]
 
 PROPS = {
+    "C03": {
+        "module": "Acme.Props.C03",
+        "level": "proof",
+        "streams": [{"name": "arith", "quick": 400, "thorough": 20000}],
+        "theorems": ["C03_signExtend", "C03_int_signed", "C03_int_unsigned", "C03_float_signed",
+                     "C03_float_unsigned", "C03_flag", "C03_enum_hit", "C03_enum_miss",
+                     "C03_range_signed", "C03_range_unsigned", "C03_calcSize", "C03_enumSize", "C03_muxSel"],
+        "rule": "scripts = decodes of one signal of every kind/size/signedness through the real Message.SignalLayout().Decode (boundary and random raw values, integral scale/offset for integer kinds, dyadic scale/offset for decimal kinds), type ranges of NewIntegerSignalType/NewDecimalSignalType, enum widths through real enums (AddValue, SetMinSize), selector widths through real multiplexers; exhaustive part: every raw value of every size <= 8 (quick) / <= 12 (thorough) bits x both signednesses x integer and decimal kinds, all 64x2 ranges, calcSize at 2^k-1, 2^k, 2^k+1 for k < 63, selector widths for 1..300 groups; non-trivial = a negative decoded value; distinct by script text",
+        "exhaustive_note": "all raw values for sizes 1..8 (quick) / 1..12 (thorough), all 128 type ranges, all power-of-two boundaries of calcSizeFromValue, group counts 1..300",
+        "trusted": COMMON_TRUST + ["float64 rounding of the decimal/custom kinds is not modelled (values over Q, compared at 1e-9)", "float64(min/max) conversion of the integer ranges: compared after rounding the model's exact integer to float64"],
+        "assumptions": ["int64(float) / uint64(float) conversions of integral scale and offset are exact (|x| < 2^53 in the generator)"],
+    },
     "C14": {
         "module": "Acme.Props.C14",
         "level": "proof",
